@@ -16,7 +16,7 @@ from ..engine import pattern as P
 from ..engine.facts import dotted, const, src, walk_func, enclosing_stmt, ancestors
 from . import skeletons as sk
 from . import c19  # idents-fields (scan state, parameter binding) is registered for C04 there
-from .common import calls, stmt_nodes, contains, pn, access_paths, assigned_from, describe_owner, resolve, resolve_deep
+from .common import calls, stmt_nodes, contains, pn, access_paths, assigned_from, describe_owner, resolve, resolve_deep, guards_of
 from .common import raise_names as common_raise_names
 
 
@@ -171,8 +171,13 @@ def lookup_siblings(ctx):
         ctx.check(id(c) in good, "filter@%s:%d" % (f.name if f else "?", [x for x in copies if getattr(x, '_func', None) is f].index(c)), db.where(c), "copy of the undeclared filter differs from its siblings: `%s` -> %s" % (src(c.test), src(c.body[0])), "agrees")
     # nested scopes see the parent's declarations
     init = db.func("codegen._Identifiers.__init__")
-    for pat, what in (("set($p.declared)", "parent declared"), ("$p.closuredefs.values()", "closure defs"), ("$x.union($p.locally_declared)", "parent locals"), ("$x.union($p.argument_declared)", "parent arguments"), ("self.declared.union($p.undeclared)", "names the parent fetched (nested)")):
-        ctx.check(P.has(init, pat), "inherits:" + what, db.where(init), "a nested scope no longer inherits %s" % what, what)
+    for pat, what in (("set($p.declared)", "parent declared"), ("$p.closuredefs.values()", "closure defs"), ("$x.union($p.locally_declared)", "parent locals"), ("$x.union($p.argument_declared)", "parent arguments"), ("$x.union($p.undeclared)", "names the parent fetched (nested)")):
+        hits = [n_ for n_, e_ in P.find(init, pat) if src(e_["p"][1]) == pn(init, 3)]
+        ok_ = bool(hits)
+        if "nested" in what:
+            # ... for a nested scope only
+            ok_ = ok_ and all((pn(init, 4), True) in guards_of(h_, init) for h_ in hits)
+        ctx.check(ok_, "inherits:" + what, db.where(init), "a nested scope no longer inherits %s" % what, what)
 
 
 def _all_lines(events):
